@@ -313,6 +313,14 @@ func (b *TB) build(v ssa.Value) *Term {
 						return xt.Args[fa.Field]
 					}
 				}
+				if a, isA := fa.X.(*ssa.Alloc); isA {
+					// a field read from a local copy of a record (`head := orderBy[0]; … head.Key`): the copy is only ever
+					// stored whole and never written field by field or handed out by address, so the field is the field of what
+					// was stored (refactoring round 11, pipeline11-r1)
+					if whole := wholeStoredRecord(a); whole != nil {
+						return &Term{Op: "field", Name: fieldName(fa.X.Type(), fa.Field), Args: []*Term{b.Of(whole)}}
+					}
+				}
 				return b.Of(v.X) // field load: (x).F
 			}
 			if ia, ok := v.X.(*ssa.IndexAddr); ok {
@@ -854,4 +862,50 @@ func globalName(g *ssa.Global) string {
 		return a
 	}
 	return g.Name()
+}
+
+// wholeStoredRecord: the local cell a holds a struct that is assigned as a whole exactly once and otherwise only read
+// through its fields (no field store, no address escaping): the stored value, else nil.
+func wholeStoredRecord(a *ssa.Alloc) ssa.Value {
+	pt, ok := a.Type().Underlying().(*types.Pointer)
+	if !ok {
+		return nil
+	}
+	if _, isStruct := pt.Elem().Underlying().(*types.Struct); !isStruct {
+		return nil
+	}
+	refs := a.Referrers()
+	if refs == nil {
+		return nil
+	}
+	var whole ssa.Value
+	for _, r := range *refs {
+		switch x := r.(type) {
+		case *ssa.Store:
+			if x.Addr != ssa.Value(a) || whole != nil {
+				return nil
+			}
+			whole = x.Val
+		case *ssa.FieldAddr:
+			if x.X != ssa.Value(a) {
+				return nil
+			}
+			if fr := x.Referrers(); fr != nil {
+				for _, u := range *fr {
+					ld, isLoad := u.(*ssa.UnOp)
+					if !isLoad || ld.Op != token.MUL {
+						return nil
+					}
+				}
+			}
+		case *ssa.UnOp:
+			if x.Op != token.MUL {
+				return nil
+			}
+		case *ssa.DebugRef:
+		default:
+			return nil
+		}
+	}
+	return whole
 }
